@@ -6,7 +6,7 @@ import shutil
 import subprocess
 import time
 
-MEM_LIMIT = int(os.environ.get("VERIF_MEM_GB", "8")) * (1 << 30)
+MEM_LIMIT = int(os.environ.get("VERIF_MEM_GB", "10")) * (1 << 30)
 VERIF = os.path.dirname(os.path.dirname(os.path.abspath(__file__)))
 
 
@@ -14,16 +14,18 @@ class ToolError(Exception):
     pass
 
 
-def _limits():
-    resource.setrlimit(resource.RLIMIT_AS, (MEM_LIMIT, MEM_LIMIT))
-    os.setsid()
+def _limits(mem):
+    def f():
+        resource.setrlimit(resource.RLIMIT_AS, (mem, mem))
+        os.setsid()
+    return f
 
 
-def run_cmd(cmd, timeout, cwd=None, env=None):
+def run_cmd(cmd, timeout, cwd=None, env=None, mem=None):
     t0 = time.time()
     try:
         p = subprocess.Popen(cmd, stdout=subprocess.PIPE, stderr=subprocess.PIPE, cwd=cwd, env=env,
-                             preexec_fn=_limits, text=True)
+                             preexec_fn=_limits(mem or MEM_LIMIT), text=True)
         try:
             out, err = p.communicate(timeout=timeout)
         except subprocess.TimeoutExpired:
@@ -112,7 +114,7 @@ def list_properties(gb, flags, entry=None):
 RES_RX = None
 
 
-def run_cbmc(gb, flags, backend="minisat", props=None, timeout=300, trace=False, entry=None):
+def run_cbmc(gb, flags, backend="minisat", props=None, timeout=300, trace=False, entry=None, mem=None):
     """Plain-text UI (the JSON UI embeds full traces: 250 MB for one small unit).
     Returns dict(status='ok'|'timeout'|'error', results={name: (status, description)}, secs, log, traces)"""
     import re
@@ -123,7 +125,7 @@ def run_cbmc(gb, flags, backend="minisat", props=None, timeout=300, trace=False,
         cmd += ["--trace"]
     for p in props or []:
         cmd += ["--property", p]
-    r = run_cmd(cmd, timeout, env=_env_for(backend))
+    r = run_cmd(cmd, timeout, env=_env_for(backend), mem=mem)
     res = dict(cmd=" ".join(cmd), secs=r["secs"], results={}, traces={}, log="", status="ok", warnings=[])
     out = r["out"] or ""
     if r["timeout"]:
